@@ -239,6 +239,10 @@ func runC08(p c08Plan, c *stats.Case) error {
 				return fmt.Errorf("responder emitted a datagram of %d bytes (> %d) for %d stored bytes", sz, portalwire.VerifMaxPacketSize, p.Size)
 			}
 			if r.err != nil {
+				if pp.IsTimeout(r.err) {
+					stats.For("C08").Count("inconclusive:e2e-timeout", 1)
+					continue
+				}
 				if p.Policy.Clean() && (common || p.Size <= inlineThreshold) {
 					return fmt.Errorf("clean link, %d stored bytes, versions %v/%v: FINDCONTENT failed: %v", p.Size, p.VA, p.VB, r.err)
 				}
